@@ -143,6 +143,8 @@ func VerifC08ClientVisitor() {
 			return
 		}
 		zzverif.Assert(err == nil && c != nil, "C08.cvisitor.accepted")
+		// the connection lives on after the call: nothing it uses may have been handed back to a pool
+		zzverif.Assert(c08v.recycled == 0, "C08.cvisitor.long-lived-stream-keeps-its-compressor")
 		top = c
 	} else {
 		cfg := &v1.STCPVisitorConfig{}
@@ -186,4 +188,78 @@ func VerifC08ClientVisitor() {
 		zzverif.Reach("C08.cvisitor.mixed-flags")
 	}
 	zzverif.Reach("C08.cvisitor.bridged")
+}
+
+// ---- xtcp visitor: tunnel or fallback
+
+var c01x struct {
+	tunnel       *c08vConn
+	tunnelFails  bool
+	transferFail bool
+	transferred  []string
+	transferConn net.Conn
+}
+
+type c01xHelper struct{ c08vHelper }
+
+func (c01xHelper) TransferConn(name string, c net.Conn) error {
+	c01x.transferred = append(c01x.transferred, name)
+	c01x.transferConn = c
+	if c01x.transferFail {
+		return io.ErrClosedPipe
+	}
+	return nil
+}
+
+// stub for (*XTCPVisitor).openTunnel: hole punching is not the subject here
+func c01xStubOpenTunnel(sv *XTCPVisitor, ctx context.Context) (net.Conn, error) {
+	if c01x.tunnelFails {
+		return nil, context.DeadlineExceeded
+	}
+	return c01x.tunnel, nil
+}
+
+// VerifC01XTCPVisitor: every user connection of an xtcp visitor ends up bridged over the tunnel
+// with the declared layers, handed over to the configured fallback visitor exactly once, or
+// closed; it is never left open and ownerless.
+func VerifC01XTCPVisitor() {
+	enc, comp := zzverif.Bool("useEncryption"), zzverif.Bool("useCompression")
+	cfg := &v1.XTCPVisitorConfig{}
+	cfg.ServerName, cfg.SecretKey = "p1", "secret"
+	cfg.Transport.UseEncryption, cfg.Transport.UseCompression = enc, comp
+	if zzverif.Bool("fallbackConfigured") {
+		cfg.FallbackTo, cfg.FallbackTimeoutMs = "plan-b", 200
+	}
+	c01x.tunnel = &c08vConn{name: "tunnel"}
+	c01x.tunnelFails, c01x.transferFail = zzverif.Bool("noTunnel"), zzverif.Bool("fallbackGone")
+	c01x.transferred, c01x.transferConn = nil, nil
+	c08v.joins, c08v.joinA, c08v.joinB, c08v.recycled = 0, nil, nil, 0
+	sv := &XTCPVisitor{BaseVisitor: &BaseVisitor{helper: c01xHelper{}, ctx: context.Background(), clientCfg: &v1.ClientCommonConfig{}}, cfg: cfg}
+	user := &c08vConn{name: "user"}
+	sv.handleConn(user)
+
+	switch {
+	case !c01x.tunnelFails:
+		zzverif.Assert(c08v.joins == 1 && c08v.joinA == io.ReadWriteCloser(user), "C01.xtcp.user-bridged-over-the-tunnel")
+		kinds, key, end := c08vWalk(c08v.joinB)
+		want := ""
+		if comp {
+			want += "comp,"
+		}
+		if enc {
+			want += "enc,"
+		}
+		zzverif.Assert(kinds == want && (!enc || key == "secret") && end == interface{}(c01x.tunnel), "C01.xtcp.declared-layers-keyed-by-the-secret-over-the-tunnel")
+		zzverif.Assert(user.closed >= 1 && len(c01x.transferred) == 0, "C01.xtcp.user-closed-after-the-bridge")
+		zzverif.Reach("C01.xtcp.tunnelled")
+	case cfg.FallbackTo == "":
+		zzverif.Assert(user.closed >= 1 && c08v.joins == 0 && len(c01x.transferred) == 0, "C01.xtcp.no-tunnel-no-fallback-closes-the-user")
+	case !c01x.transferFail:
+		zzverif.Assert(len(c01x.transferred) == 1 && c01x.transferred[0] == "plan-b" && c01x.transferConn == net.Conn(user), "C01.xtcp.handed-to-the-configured-fallback-once")
+		zzverif.Assert(user.closed == 0, "C01.xtcp.handed-over-connection-left-to-its-new-owner")
+		zzverif.Reach("C01.xtcp.fallback")
+	default:
+		zzverif.Assert(user.closed >= 1, "C01.xtcp.failed-hand-over-closes-the-user")
+		zzverif.Reach("C01.xtcp.fallback-failed")
+	}
 }
